@@ -298,7 +298,11 @@ func (in *Inst) load(addr *Term, typ types.Type, g *Term, instr ssa.Instruction,
 	}
 	if root.K == KSym {
 		if al, ok := in.X.objAlias[root.Sym]; ok {
-			args := append(append([]*Term{}, al.Args...), path...)
+			base := al.Args
+			if al.K == KSym {
+				base = []*Term{al} // the copied value is a by-value parameter itself
+			}
+			args := append(append([]*Term{}, base...), path...)
 			return in.load(S.mkOp("addr", TRef, args...), typ, g, instr, b)
 		}
 	}
@@ -329,6 +333,16 @@ func rootIsGlobal(root *Term) bool {
 
 func (in *Inst) loadScalar(root *Term, path []*Term, tc TyClass, g *Term, instr ssa.Instruction) *Term {
 	S := in.X.S
+	// a scalar field of a struct passed BY VALUE cannot change during the call: a pure function of the parameter
+	if root.K == KSym && root.Sym.Kind == SParam && len(path) == 1 {
+		if p, ok := root.Sym.Obj.(*ssa.Parameter); ok {
+			if _, isStruct := p.Type().Underlying().(*types.Struct); isStruct {
+				if f, isStr := path[0].StrVal(); isStr && strings.HasPrefix(f, ".") {
+					return S.mkOp("ld", tc, root, path[0])
+				}
+			}
+		}
+	}
 	if rootIsGlobal(root) || (root.K == KSym && (root.Sym.Kind == SRes || root.Sym.Kind == SOut)) || root.Op == "ld" || strings.HasPrefix(root.Op, "extract") || strings.HasPrefix(root.Op, "call:") {
 		args := append([]*Term{root}, path...)
 		return S.mkOp("ld", tc, args...)
@@ -391,7 +405,8 @@ func (in *Inst) store(t *ssa.Store, g *Term, b *ssa.BasicBlock) {
 	if !ok {
 		root, path = addr, nil
 	}
-	if al, isAl := t.Addr.(*ssa.Alloc); isAl && val.Op == "at" && singleInitStruct(al) && root.K == KSym {
+	_, valIsParam := t.Val.(*ssa.Parameter)
+	if al, isAl := t.Addr.(*ssa.Alloc); isAl && (val.Op == "at" || (valIsParam && val.K == KSym && val.Sym.Kind == SParam)) && (singleInitStruct(al) || singleInitArrayParam(al, t)) && root.K == KSym {
 		// a local struct initialised once by copying a whole value: reads of its fields read the source location
 		in.X.objAlias[root.Sym] = val
 	}
@@ -503,6 +518,10 @@ func (in *Inst) call(v ssa.Value, c *ssa.CallCommon, kind string, g *Term, b *ss
 				return S.Op("complex", TComplex, args[0], args[1])
 			case "min", "max":
 				return S.Op("call:builtin."+name[8:], resTy, args...)
+			case "copy":
+				if r := in.expandCopy(c, args, g, b); r != nil {
+					return r
+				}
 			}
 		}
 		// pure standard library
@@ -619,7 +638,16 @@ func (in *Inst) inline(fn *ssa.Function, args []*Term, clo *closureVal, g *Term,
 	}
 	if len(cases) == 0 {
 		// never returns (always panics)
+		in.narrow = S.False
 		return S.SymTerm(in.newSym(SOpaque, "noreturn", TOther))
+	}
+	if len(cases) < len(tex) {
+		// some paths of the callee end in panic: the caller continues under the callee's return conditions only
+		ret := S.False
+		for _, c := range cases {
+			ret = S.Or(ret, c.G)
+		}
+		in.narrow = S.Canon(ret)
 	}
 	if nres > 1 {
 		// mux component-wise to keep tuples explicit
@@ -711,10 +739,159 @@ func singleInitStruct(a *ssa.Alloc) bool {
 					}
 				}
 			}
+		case *ssa.UnOp:
+			// the whole value read back (passed on by value)
+		case *ssa.MakeClosure:
+			// captured by a closure that only reads it
+			fn, ok := r.Fn.(*ssa.Function)
+			if !ok {
+				return false
+			}
+			for bi, bnd := range r.Bindings {
+				if bnd != ssa.Value(a) {
+					continue
+				}
+				if bi >= len(fn.FreeVars) || !onlyReadThrough(fn.FreeVars[bi]) {
+					return false
+				}
+			}
 		case *ssa.DebugRef:
 		default:
 			return false
 		}
 	}
 	return stores == 1
+}
+
+// onlyReadThrough: every use of the pointer v is a load, or a field/element address that is itself only loaded from.
+func onlyReadThrough(v ssa.Value) bool {
+	refs := v.Referrers()
+	if refs == nil {
+		return false
+	}
+	for _, r := range *refs {
+		switch r := r.(type) {
+		case *ssa.UnOp, *ssa.DebugRef:
+		case *ssa.FieldAddr:
+			if !onlyReadThrough(r) {
+				return false
+			}
+		case *ssa.IndexAddr:
+			if r.X != v || !onlyReadThrough(r) {
+				return false
+			}
+		default:
+			return false
+		}
+	}
+	return true
+}
+
+// singleInitArrayParam: the spilled copy of an array passed BY VALUE (the callee indexes it): one whole-value store of
+// the parameter, elements only read. Reads go to the caller's array, which cannot change while the callee runs.
+func singleInitArrayParam(a *ssa.Alloc, st *ssa.Store) bool {
+	if _, ok := deref(a.Type()).Underlying().(*types.Array); !ok {
+		return false
+	}
+	if _, isParam := st.Val.(*ssa.Parameter); !isParam {
+		return false
+	}
+	refs := a.Referrers()
+	if refs == nil {
+		return false
+	}
+	stores := 0
+	for _, r := range *refs {
+		switch r := r.(type) {
+		case *ssa.Store:
+			if r.Addr != a {
+				return false
+			}
+			stores++
+		case *ssa.IndexAddr:
+			if rr := r.Referrers(); rr != nil {
+				for _, u := range *rr {
+					switch u.(type) {
+					case *ssa.UnOp, *ssa.DebugRef:
+					default:
+						return false
+					}
+				}
+			}
+		case *ssa.DebugRef:
+		default:
+			return false
+		}
+	}
+	return stores == 1
+}
+
+// expandCopy turns copy(dst, src) between two different objects with scalar elements into the loop it abbreviates:
+// for k := 0; k < min(len(dst), len(src)); k++ { dst[k] = src[k] }. Returns the number of elements copied, or
+// nil when the call is left as an event (same object on both sides: memmove semantics; non-scalar elements).
+func (in *Inst) expandCopy(c *ssa.CallCommon, args []*Term, g *Term, b *ssa.BasicBlock) *Term {
+	S := in.X.S
+	if len(args) != 2 {
+		return nil
+	}
+	st, ok := c.Args[0].Type().Underlying().(*types.Slice)
+	if !ok {
+		return nil
+	}
+	if _, isStr := c.Args[1].Type().Underlying().(*types.Basic); isStr {
+		return nil // copy(dst, "string")
+	}
+	tc := tyClass(st.Elem())
+	if tc == TRef || tc == TOther || isAggregate(st.Elem()) {
+		return nil
+	}
+	droot, doff, dlen := in.sliceParts(args[0])
+	sroot, soff, slen := in.sliceParts(args[1])
+	if droot == sroot {
+		return nil
+	}
+	if dlen.Op == "len" && dlen.Args[0] == droot {
+		dlen = in.lenOf(droot)
+	}
+	if slen.Op == "len" && slen.Args[0] == sroot {
+		slen = in.lenOf(sroot)
+	}
+	cnt := dlen
+	if dlen != slen {
+		cnt = S.Op("ite", TInt, S.Cmp("<=", dlen, slen), dlen, slen)
+	}
+	in.X.nloop++
+	ls := &LoopS{ID: in.X.nloop, Fn: in.Fn, Info: &loopInfo{Header: b, Blocks: map[*ssa.BasicBlock]bool{}}, Guard: g, Body: &Region{},
+		Parent: in.curLoop(), final: map[*Symbol]*Term{}}
+	if v, ok := c.Value.(*ssa.Builtin); ok {
+		_ = v
+	}
+	ls.Pos = c.Pos()
+	cur := in.region[len(in.region)-1]
+	cur.Items = append(cur.Items, ls)
+	ls.Iter = in.newSym(SIter, fmt.Sprintf("i%d", ls.ID), TInt)
+	ls.Iter.Loop = ls
+	ls.IterEnd = in.newSym(SIterEnd, fmt.Sprintf("iend%d", ls.ID), TInt)
+	ls.IterEnd.Loop = ls.Parent
+	it := S.SymTerm(ls.Iter)
+	cont := S.Cmp("<", it, cnt)
+	ls.Cont = S.Canon(cont)
+	ls.Exits = []*Exit{{Guard: S.Canon(S.Not(cont)), From: b, Target: b, AtHead: true}}
+	if v, ok := cnt.IntVal(); ok {
+		if v < 0 {
+			v = 0
+		}
+		ls.Trip = S.Int(v)
+	} else {
+		ls.Trip = S.Op("max0", TInt, cnt)
+	}
+	ls.Bound = ls.Trip
+	ls.final[ls.Iter] = ls.Trip
+	in.loops = append(in.loops, ls)
+	in.region = append(in.region, ls.Body)
+	val := in.loadScalar(sroot, []*Term{S.Add(soff, it)}, tc, ls.Cont, nil)
+	in.emit(&Event{Kind: "store", Guard: ls.Cont, Root: droot, Path: []*Term{S.Add(doff, it)}, Val: val, Pos: c.Pos()})
+	in.region = in.region[:len(in.region)-1]
+	in.loops = in.loops[:len(in.loops)-1]
+	return ls.Trip
 }
